@@ -262,6 +262,11 @@ def r1_r2_wire(ctx, rep, R1='C07.R1', R2='C07.R2'):
             role = '?' + d
             if d.endswith('.num_ran'):
                 role = 'RAN'
+            elif isinstance(t, ast.Name) and any(
+                    isinstance(x, ast.Assign) and is_name(x.value, t.id) and any(
+                        (dotted(tt) or '').endswith('.num_ran') for tt in x.targets)
+                    for x in ast.walk(r.node)):
+                role = 'RAN'            # unpacked into a local that is then stored as <result>.num_ran
             for lp, counter, acc, nexts, apps, decs in loops:
                 if d == counter:
                     role = {'failures': 'NFAIL', 'errors': 'NERR', 'skipped': 'NSKIP'}.get(acc, '?' + acc)
@@ -514,8 +519,9 @@ def r4_fail_closed(ctx, rep, R='C07.R4'):
             if k != 'exc' or g.node(d).kind != 'handler':
                 continue
             # paths that go on normally after the exception was handled
-            r = g.reach([d], avoid=through, include_start=True,
-                        edge_ok=lambda a, b, kk: kk != 'exc')
+            # (flag sensitive: a boolean local such as "header found" prunes the branches it decides)
+            r = g.reach_flags([d], avoid=through, include_start=True,
+                              edge_ok=lambda a, b, kk: kk != 'exc')
             if g.exit in r and bad is None:
                 bad = (s_, d)
     txt = g.node(bad[0]).text()[:80] if bad else ''
@@ -550,7 +556,7 @@ def r4_fail_closed(ctx, rep, R='C07.R4'):
     if ok:
         lp = loops[-1]
         ex = [d for d, k in g.succ[lp.id] if k == 'false']
-        r = g.reach(ex, avoid=set(app), include_start=True, edge_ok=lambda a, b, k: k != 'exc')
+        r = g.reach_flags(ex, avoid=set(app), include_start=True, edge_ok=lambda a, b, k: k != 'exc')
         ok = g.exit not in r
     rep.check(ok, R, 'no header line found -> errors.append',
               'when no line of the child\'s stderr parses as a header the reader can finish '
@@ -573,8 +579,12 @@ def r4_fail_closed(ctx, rep, R='C07.R4'):
                  any(is_name(t, counter) for t in n.ast.targets) and
                  isinstance(n.ast.value, ast.Constant) and n.ast.value.value == 0]
         hp2 = _header_parse(cfgq)
-        dom = cfgq.dominators()
-        rep.check(any(i in dom[lp.id] for i in inits) or (hp2 is not None and hp2.id in dom[lp.id]),
+        # every way to the loop sets the counter: by a completed header parse (its normal exit) or
+        # by an explicit 0
+        hid = hp2.id if hp2 is not None else -1
+        reach_unset = cfgq.reach_flags([cfgq.entry], avoid=set(inits), include_start=True,
+                                       edge_ok=lambda a, b, k: not (a == hid and k != 'exc'))
+        rep.check(lp.id not in reach_unset,
                   R, 'counter %s is 0 unless a header was parsed' % counter,
                   'the consumer loop for %s can run with an unset/stale counter' % acc,
                   key='counter-init:' + counter, func=fi.qualname, where=ctx.where(fi, lp.stmt))
@@ -662,8 +672,9 @@ def r5_channel_separation(ctx, rep, R='C07.R5'):
         return
     starts = nodes_calling(gr, lambda c: dotted(c.func) == tname + '.start')
     joins = nodes_calling(gr, lambda c: dotted(c.func) == tname + '.join')
-    reads = nodes_calling(gr, lambda c: dotted(c.func) in (child + '.stdout.readline',
-                                                            child + '.stdout.read'))
+    from .common import alias_dotted as _ad
+    reads = nodes_calling(gr, lambda c: (_ad(r.node, c.func) or dotted(c.func)) in (
+        child + '.stdout.readline', child + '.stdout.read'))
     reads += [n.id for n in gr.nodes if n.kind == 'for' and dotted(n.ast) == child + '.stdout']
     bufuse = [n.id for n in gr.nodes if n.ast is not None and n.kind in ('stmt', 'test', 'for') and
               any(isinstance(x, ast.Name) and x.id == buf and isinstance(x.ctx, ast.Load)
